@@ -43,4 +43,4 @@ LEVEL_NOTE = ("Trusted: Coq kernel, the hand-written model incl. its rendering o
               "extraction and the OCaml driver. No axioms. Numerals without integer digits ('.5') may be accepted with their exact value or rejected "
               "(the code rejects '.0' but accepts '.5'); the specification allows both, never another value.")
 def nontrivial(c):
-    return c[0] != "3" or True
+    return True
